@@ -451,9 +451,14 @@ def check_zerodm(case, ctx):
         for r in defs:
             ok |= np.abs(a - r) <= 1e-4 * np.maximum(1.0, np.abs(r))
     else:
+        # one quantisation level, plus the single-precision evaluation error of the definition itself (band-pass and
+        # channel weights are float32): a defined value a few 1e-6 above an integer may be evaluated just below it
+        # and truncate one level lower
         ok = np.zeros(a.shape, bool)
+        zsum = np.abs(X.sum(axis=1, keepdims=True))
         for r in defs:
-            ok |= np.abs(a - r) <= 1.0 + 1e-6
+            slack = 8 * float(np.finfo(np.float32).eps) * (zsum + np.abs(X) + np.abs(r) + 1.0)
+            ok |= np.abs(a - r) <= 1.0 + slack
     if not np.all(ok):
         bad = np.argwhere(~ok)[0]
         raise Violation("remove_zerodm:values", f"{s.ctxt}: out[{bad.tolist()}]={a[tuple(bad)]} defined {[float(r[tuple(bad)]) for r in defs]}")
